@@ -76,10 +76,29 @@ def afterObs (ws : List String) : String :=
       else s!"reject expected closed={expClosed} rdead={expDead} listed=0 done=1 mem=1 gor=1 conn-ok={b conn}"
   | _, _, _, _, _, _, _ => "bad-op"
 
+/-- a connection handed to NewPeer: closed, unless NewPeer returned nil and the loop exited
+    with the TorAddPeer still queued (the known finding, `C17_full_refuted`) -/
+def connObs (ws : List String) : String :=
+  match kv ws "stop", kv ws "got", kv ws "closed" with
+  | some stop, some got, some closed =>
+    match termsOf "NewPeer" stop with
+    | none => "bad-op"
+    | some (_, ts) =>
+      -- "a+b": two hand-overs with different results; each must be possible
+      let gots := got.splitOn "+"
+      let mine := ts.filter (fun t => gots.contains (resStr t.res))
+      let possible := gots.all (fun g => ts.any (fun t => resStr t.res == g))
+      let ok :=
+        if closed == "1" then mine.any (fun t => !Cmd.leaked t.cmd)
+        else mine.any (fun t => Cmd.leaked t.cmd)
+      if possible && ok then "accept" else "reject closed expected"
+  | _, _, _ => "bad-op"
+
 def step (_ : Unit) (ws : List String) : Unit × String :=
   match ws with
   | "call" :: rest => ((), callObs rest)
   | "after" :: rest => ((), afterObs rest)
+  | "connlife" :: rest => ((), connObs rest)
   | _ => ((), "bad-op")
 
 end Storrent.Drive.C17
